@@ -40,6 +40,7 @@ MODELS = {
     'stdio': ('stdio_model.c', False),
     'quiet': ('quiet_model.c', False),
     'realloc': ('realloc_model.c', False),
+    'memcpy': ('memcpy_model.c', False),
 }
 
 ALLOC_DEFS = ['-Dmalloc=verif_malloc', '-Dcalloc=verif_calloc', '-Drealloc=verif_realloc', '-Dfree=verif_free']
@@ -724,7 +725,8 @@ class Engine:
                         for hh in json.load(open(os.path.join(hd, f))).values():
                             for k, v in hh.get('unwindset', {}).items():
                                 # seeds are capped: over-unwinding data-dependent loops costs GBs of symex memory
-                                if not k.startswith('harness'):
+                                # (recursion bounds 'function:N' are valid only where the function exists: not pooled)
+                                if not k.startswith('harness') and re.search(r'\.\d+$', k):
                                     self.pool[k] = min(4, max(self.pool.get(k, 0), v))
                     except Exception:
                         pass
